@@ -57,6 +57,7 @@ def parseOp : List String → Option Op
   | ["new2", n, rows] => do let n ← n.toNat?; let r ← parseRows rows 2; pure (Op.new false n false r)
   | ["swap"] => some .swap
   | ["dup"] => some .dup
+  | ["add2", i, j] => do let i ← i.toInt?; let j ← j.toInt?; pure (Op.add i j 0)      -- default bond_type = ANY
   | ["add", i, j, t] => do let i ← i.toInt?; let j ← j.toInt?; let t ← t.toInt?; pure (Op.add i j t)
   | ["remove", i, j] => do let i ← i.toInt?; let j ← j.toInt?; pure (Op.remove i j)
   | ["remove_to", i] => do let i ← i.toInt?; pure (Op.removeTo i)
@@ -95,14 +96,21 @@ def view (st : State) : List String → Option String
 def step (st : State) (line : String) : State × String :=
   -- a trailing `@dtype` token only says which integer *object* carries the index (NumPy scalar / array dtype): the
   -- model is about the number
-  let w := (words line).filter (fun t => !t.startsWith "@")
+  let ws := words line
+  let w := ws.filter (fun t => !t.startsWith "@")
+  let layout : Layout :=
+    if ws.contains "@be" then .byteSwapped else if ws.contains "@ro" then .readOnly else .native
   match view st w with
   | some out => (st, out)
   | none =>
     match parseOp w with
     | none => (st, "unmodelled")
     | some op =>
-      match apply st op with
+      let r : Res State := match op, layout with
+        | .getitem ix, .byteSwapped => (getitemL st.cur ix .byteSwapped).toState st
+        | .getitem ix, .readOnly => (getitemL st.cur ix .readOnly).toState st
+        | op, _ => apply st op
+      match r with
       | .ok st' =>
         let shown := match op with
           | .new true _ _ _ => st'.aux
